@@ -27,10 +27,10 @@ EXHAUSTIVE = {
         "thorough": [("E1", cfgc()), ("E3", cfgc(MaxOps=3, MaxExch=2)),
                      ("E2", cfgc(WithBatch=True, MaxExch=2)),                         # batches, removals-first halves
                      ("E4", cfgc(WithBulk=True, WithRestart=True, MaxExch=2)),       # bulk operations, restarts
-                     ("E5", cfgc(Nodes={1, 2, 3}, CNodes={1, 2}, F=2, Times={0, 1}, MaxSkew=1, MaxExch=2)),  # three nodes, two of them issue
+                     ("E5", cfgc(Nodes={1, 2, 3}, CNodes={1, 2, 3}, F=2, Times={0, 1}, MaxSkew=1, MaxExch=2)),  # three nodes, two of them issue
                      ("E6", cfgc(MaxDup=1, MaxExch=3)),                               # duplicated deliveries
                      ("E7", cfgc(WithTracker=True, MaxExch=6)),                       # the poller's keyspace tracker skips unchanged peers
-                     ("E8", cfgc(WithTracker=True, WithRestart=True, MaxExch=4))],
+                     ("E8", cfgc(WithTracker=True, WithRestart=True, MaxExch=3))],
     },
     "C05": {   # nothing is replicated directly: every difference is repaired by exchanges
         "quick": [("X1", cfgc(NoDirect=True, WithBulk=True, MaxOps=2, MaxExch=4))],
@@ -67,8 +67,8 @@ SIMULATED = {
                                   WithPurge=True, MinOpsToEmit=3), 15000, 160, 6000)],
     },
 }
-COARSE = {"quick": 1200, "thorough": 12000}
-TRACKED = {"quick": 1200, "thorough": 12000}
+COARSE = {"quick": 1200, "thorough": 6000}
+TRACKED = {"quick": 1200, "thorough": 6000}
 ACTOR_PROPS = {"C01": ["C04", "C05"], "C05": ["C05"], "C08": ["C08"]}
 INVARIANTS = ["C01_Converges", "C02_Agree", "C05_NothingLeft", "C01_TrackerFixpoint"]
 
